@@ -32,15 +32,49 @@ def residual_text(S, inc):
     return min(a, b)
 
 
+def seed_nodes(builder, seeds):
+    """seeds: {'module:function': {'var': spec}} -> [(node, spec)] for the value
+    expression of every plain assignment `var = ...` in that function."""
+    import ast
+    out = []
+    if not seeds:
+        return out
+    want = {}
+    for fname, vars_ in seeds.items():
+        fi = builder.model.get_func(fname)
+        found = set()
+        for st in ast.walk(fi.node):
+            if isinstance(st, ast.Assign) and len(st.targets) == 1 and isinstance(st.targets[0], ast.Name) \
+                    and st.targets[0].id in vars_:
+                want[id(st.value)] = vars_[st.targets[0].id]
+                found.add(st.targets[0].id)
+        missing = set(vars_) - found
+        if missing:
+            raise AnalysisError('seed variable(s) %s vanished from %s' % (sorted(missing), fname))
+    for n in builder.trace:
+        if n.origin is not None and n.origin[1] is not None and id(n.origin[1]) in want:
+            out.append((n, want[id(n.origin[1])]))
+    return out
+
+
 def analyse_class(model, cls, input_dims_spec=None, output_spec=None, units=BASE_UNITS,
                   param_dims_spec=None, extra_symbols=(), point_name='r', time_name='t',
-                  run=True, const_dims_spec=None):
+                  run=True, const_dims_spec=None, opaque=None, seeds=None, all_params=None):
     """Build the value graph of `cls` (constructor chain + _run) and run the
     dimension fold over every node.  Returns (builder, system, evaluator)."""
     b = Builder(model)
+    for fname in (opaque or {}):
+        model.get_func(fname)        # anchor must exist
+    b.opaque = dict(opaque or {})
     obj, res = b.run_solver(cls, run=run, point_name=point_name, time_name=time_name)
     keys = model.parameters_keys(cls) or []
+    extra_symbols = list(extra_symbols) + list((opaque or {}).values())
     S = DimSystem(list(keys) + list(extra_symbols), units=units)
+    if all_params is not None:
+        param_dims_spec = dict({k: all_params for k in list(keys) + list((opaque or {}).values())},
+                               **(param_dims_spec or {}))
+    else:
+        param_dims_spec = dict({k: '1' for k in (opaque or {}).values()}, **(param_dims_spec or {}))
     outd = {}
     for k, v in (output_spec or {}).items():
         if not k.startswith('_'):
@@ -48,6 +82,9 @@ def analyse_class(model, cls, input_dims_spec=None, output_spec=None, units=BASE
     ind = {k: S.from_spec(v) for k, v in (input_dims_spec or {}).items()}
     pd = {k: S.from_spec(v) for k, v in (param_dims_spec or {}).items()}
     ev = DimEval(S, input_dims=ind, output_dims=outd, param_dims=pd)
+    for node, spec in seed_nodes(b, seeds):
+        ev.memo[node.nid] = S.from_spec(spec)
+        ev.seeded = getattr(ev, 'seeded', 0) + 1
     ev.run(b.trace)
     return b, S, ev
 
